@@ -471,9 +471,40 @@ func (b bitSrc) String() string {
 }
 
 // compareDE compares the decoder's read sequence with the encoder's write sequence (after the header).
+var allowTrailingConst bool
+
 func compareDE(d, e []node, shapeOnly bool) (problems []string, dontcare []string) {
 	if shapeOnly {
 		d, e = shapeOf(d), shapeOf(e)
+	}
+	if allowTrailingConst && len(e) > 0 && len(d) > 0 {
+		// rbsp trailing bits / byte alignment written by the encoder after everything the decoder reads
+		le, ld := e[len(e)-1], d[len(d)-1]
+		if le.kind == "bits" && ld.kind == "bits" && len(le.bits) > len(ld.bits) && len(e) == len(d)+btoi(len(e) > 0 && e[0].kind == "var" && strings.HasPrefix(e[0].desc, "hdr|")) {
+			extra := le.bits[len(ld.bits):]
+			allConst := true
+			for _, b := range extra {
+				if b.atom != "" || b.op != "" {
+					allConst = false
+				}
+			}
+			if allConst && len(extra) <= 8 {
+				cp := le
+				cp.bits = le.bits[:len(ld.bits)]
+				e = append(append([]node{}, e[:len(e)-1]...), cp)
+			}
+		} else if le.kind == "bits" && len(le.bits) <= 8 && (ld.kind != "bits" || len(e) == len(d)+1+btoi(len(e) > 0 && e[0].kind == "var" && strings.HasPrefix(e[0].desc, "hdr|"))) {
+			// a separate trailing node after everything the decoder reads
+			allConst := true
+			for _, b := range le.bits {
+				if b.atom != "" || b.op != "" {
+					allConst = false
+				}
+			}
+			if allConst {
+				e = e[:len(e)-1]
+			}
+		}
 	}
 	// drop the encoder's header node
 	if len(e) > 0 && e[0].kind == "var" && strings.HasPrefix(e[0].desc, "hdr|") {
@@ -710,4 +741,11 @@ func (in *Interp) zeroSubst(e *Expr) *Expr {
 		r = in.mkBin("+", r, term, typInfo{64, true})
 	}
 	return r
+}
+
+func btoi(b bool) int {
+	if b {
+		return 1
+	}
+	return 0
 }
